@@ -420,7 +420,8 @@ def collect (a : Acc) (mn fn : Nat) (v : Value) : Acc :=
 def accumulate (a : Acc) (mn fn : Nat) (v : Value) : Option (Acc × Value) :=
   match a.find? (accMatch mn fn) with
   | some e =>
-    match sumValue v e.value with
+    -- first seen in this sequence (`v.value.Type() == TypeInvalid`): nothing to carry over yet
+    match (if e.value == .invalid then some v else sumValue v e.value) with
     | some s =>
       -- only the first matching entry is updated (the loop returns)
       let rec upd : Acc → Acc
@@ -428,7 +429,7 @@ def accumulate (a : Acc) (mn fn : Nat) (v : Value) : Option (Acc × Value) :=
         | x :: xs => if accMatch mn fn x then { x with last := s } :: xs else x :: upd xs
       some (upd a, s)
     | none => none
-  | none => some (a ++ [⟨mn, fn, v, v⟩], v)
+  | none => some (a ++ [⟨mn, fn, .invalid, v⟩], v)
 
 /-- `SequenceCompleted` -/
 def sequenceCompleted (a : Acc) : Acc := a.map fun e => { e with value := e.last }
